@@ -362,6 +362,28 @@ pub fn check(prop: Prop, env: &Env, scn: &Scenario, stats: &mut Stats) -> Vec<Fo
     check_fp(prop, env, scn, stats).0
 }
 
+/// `check` on a thread of its own: whatever the code under test keeps per thread starts out fresh,
+/// so the verdict is about this scenario alone and not about what the calling thread did before.
+pub fn check_isolated(prop: Prop, env: &Env, scn: &Scenario, stats: &mut Stats) -> Vec<Found> {
+    std::thread::scope(|s| s.spawn(|| check(prop, env, scn, stats)).join()).unwrap_or_default()
+}
+
+/// A *session*: the scenarios in `earlier` are checked one after the other on one fresh thread,
+/// then `scn`. Returns what `scn` is found to violate at the end of that history.
+pub fn check_after(prop: Prop, env: &Env, earlier: &[Scenario], scn: &Scenario) -> Vec<Found> {
+    std::thread::scope(|s| {
+        s.spawn(|| {
+            let mut st = Stats::default();
+            for e in earlier {
+                let _ = check(prop, env, e, &mut st);
+            }
+            check(prop, env, scn, &mut st)
+        })
+        .join()
+    })
+    .unwrap_or_default()
+}
+
 /// also returns the fingerprint of everything the check did for this scenario (every run's
 /// history fingerprint, in order): the unit of the determinism proof
 pub fn check_fp(prop: Prop, env: &Env, scn: &Scenario, stats: &mut Stats) -> (Vec<Found>, u64) {
@@ -452,6 +474,9 @@ fn c03(c: &mut Checker) {
             rules::h_stop_inside(&r, &mut out);
         }
         rules::h_prefix_and_handover(&base, &r, k, true, &mut out);
+        if !c.scn.has_dup {
+            rules::h_deliver(&base, &r, &mut out);
+        }
         c.record(out, &cfg, &r);
         let cfg = c.cfg(Script::CkBC(k));
         let r = c.exec(&cfg, &has_break);
@@ -461,6 +486,9 @@ fn c03(c: &mut Checker) {
             rules::h_stop_inside(&r, &mut out);
         }
         rules::h_prefix_and_handover(&base, &r, k, false, &mut out);
+        if !c.scn.has_dup {
+            rules::h_deliver(&base, &r, &mut out);
+        }
         c.record(out, &cfg, &r);
         if !c.found.is_empty() {
             return;
@@ -488,6 +516,7 @@ fn c03(c: &mut Checker) {
         rules::h_stop(&r, &mut out);
         if !c.scn.has_dup {
             rules::h_stop_inside(&r, &mut out);
+            rules::h_deliver(&base, &r, &mut out);
         }
         c.record(out, &cfg, &r);
     }
@@ -738,6 +767,11 @@ fn c08(c: &mut Checker) {
             m_value_nodup(c, &exp, &r, &mut out);
             rules::m_visits("M-visits", &exp, &r, &mut out);
             rules::m_calls_opt("M-calls", &exp, &r, false, c.scn.has_dup, &|s| matches!(s, CallStage::Missing | CallStage::Map), &mut out);
+            // "a skipped field never reads the payload": nor does anything else read a member no field owns
+            if source == Source::Sim && !c.scn.has_dup {
+                rules::m_decodes("M-decodes", &exp, &r, &mut out);
+                c.stats.bump("member_decodes_checked", exp.decodes.len() as u64);
+            }
             // "is reported missing": the report must reach the caller
             out.extend(conservation_rules(&r));
             let n_missing = exp.reports.iter().filter(|e| matches!(e.class, simcore::model::ExpClass::Missing { .. })).count();
@@ -763,6 +797,23 @@ fn c09(c: &mut Checker) {
         out.extend(conservation_rules(&r));
         c.stats.bump("expected_unknown_key_reports", exp.unknown_denied as u64);
         c.record(out, &cfg, &r);
+        // "every payload key ... is reported": also when the error type stops the work later on.
+        // An unknown key the source has handed out is dealt with before anything else happens.
+        if exp.unknown_denied > 0 && !c.scn.has_dup && c.found.is_empty() {
+            let mut scripts = vec![c.scn.script.clone()];
+            for k in c.stop_positions(r.decisions).into_iter().take(6) {
+                scripts.push(Script::CkB(k));
+                scripts.push(Script::CkBC(k));
+            }
+            for sc in scripts {
+                let scfg = c.cfg(sc);
+                let sr = c.exec(&scfg, &|_| true);
+                let mut out = vec![];
+                rules::h_deliver(&r, &sr, &mut out);
+                c.stats.bump("unknown_key_runs_under_stop_answers", 1);
+                c.record(out, &scfg, &sr);
+            }
+        }
         // X-spurious: where unknown keys are not denied they have no influence whatsoever.
         // Compare with the same document stripped of every member no field reads; positions
         // under a denying container are expected to differ by exactly the UnknownKey reports.
